@@ -82,6 +82,11 @@ claim("C09",
       "Known findings (printed, exit 0): values other than strings and string hashes are re-typed or lost by the JSON preamble; a crash between truncating and syncing the preamble loses it. Metadata operations (truncate) are taken as durable at once; real files and directory entries are not modelled. Bounds in the evidence assumptions.",
       "DESIGN.md C09")
 
+claim("C07",
+      "Real servers built in cluster mode by the real constructor: RaftInit, the FSM, raftApplyCommand and handleCommand's routing run as they are, hashicorp/raft is replaced by an ideal replicated log (the leader's Apply runs the entry through every node's FSM in log order). For every replicated write of a menu of 28 commands over 7 typed pre-states and 3 logical databases, issued on the leader by a client that selected the database: the reply and the leader's dataset equal those of a standalone server (the acknowledged write is visible in the selected database), and the replica - which has its own, solver-chosen clock - holds the same dataset in every database. A write arriving at a follower is rejected (or handed over when forwarding is on) and never applied locally. Routing: any command whose handler changes the dataset for some input must be a replicated (Sync) write command. Counterexamples are replayed on a real local raft cluster over loopback.",
+      "Elections, leadership transfer, node restart from a raft snapshot, the gossip hand-over of forwarded writes, more than one replica and concurrent application on replicas are outside the model. Known finding: relative expirations are applied with each node's own clock. Bounds in the evidence assumptions.",
+      "DESIGN.md C07")
+
 # every property without a claim is listed as not applicable (yet) with its reason
 NA_REASONS = {}
 for n in range(1, 21):
